@@ -1,9 +1,10 @@
 \* ten-field classes: rows are two bytes wide; reader lacks / reorders / rotates fields
-CONSTANTS Names = {"A", "B", "C", "D", "E", "F", "G", "H", "I", "J"}  MaxObj = 1  Wide = TRUE  MaxRow = 2
+CONSTANTS Names = {"A", "B", "C", "D", "E", "F", "G", "H", "I", "J"}  MaxObj = 1  Wide = TRUE  MaxRow = 1
 INIT FInit
 NEXT FNext
 CONSTRAINT Bound
 INVARIANT FTypeOK
+INVARIANT FRefusalStoresNothing
 INVARIANT FlagMeaning
 INVARIANT ReadExtendsOnly
 INVARIANT BytesExact
